@@ -47,6 +47,8 @@ JudgeForm(c, P, f) ==
              ELSE LET R == Parse(c.rschema) IN
                   IF ~R.ok \/ c.wbytes # enc.b THEN Cl(tag("C12.json_resolve"), "skip")
                   ELSE IF \E a, b \in DOMAIN names \cup DOMAIN R.st.names : a # b /\ Unqual(a) = Unqual(b) THEN Cl(tag("C12.json_resolve"), "unspec")
+                  \* (the JSON text carries the numbers as given, the binary form rounds them to the branch's width: compared where both agree)
+                  ELSE IF ~nrmj.ok \/ ~VEqN(nrmj.v, nrm.v) THEN Cl(tag("C12.json_resolve"), "unspec")
                   ELSE LET x == Resolve(t, R.t, c.wbytes, names, R.st.names) IN
                        IF x.st = "ok" THEN Tri(tag("C12.json_resolve"), f.jsonresolve.ok /\ Len(f.jsonresolve.recs) = 1 /\ VEqN(f.jsonresolve.recs[1], x.v))
                        ELSE IF x.st = "raise" THEN Tri(tag("C12.json_resolve"), ~f.jsonresolve.ok)
